@@ -213,7 +213,8 @@ def r2_packing(rule, root=None):
         rule.ok("batch width = ceil(free parameters / 3)")
     else:
         rule.bad("pack|width", "each gradient row must hold ceil(free / 3) samples", A.where(new))
-    if t.fmatch("vars.len().max(grad_tapes.iter().map(|$T|$T.vars().len()).max().unwrap_or(0))") is not None or t.fmatch("grad_tapes.iter().fold(vars.len(),|$N,$T|$N.max($T.vars().len()))") is not None:
+    ta = A.ftxt(A.adjacent_view(new["body"]))
+    if any(x.fmatch("vars.len().max(grad_tapes.iter().map(|$T|$T.vars().len()).max().unwrap_or(0))") is not None or x.fmatch("grad_tapes.iter().fold(vars.len(),|$N,$T|$N.max($T.vars().len()))") is not None for x in (t, ta)):
         rule.ok("scratch rows cover both the parameter count and the widest tape")
     else:
         rule.bad("pack|rows", "the scratch must have max(parameters, widest tape) rows", A.where(new))
